@@ -25,7 +25,7 @@ fn async_send_faults() {
         G_BUILT.v = 0;
         G_RX_CALLS.v = 0;
     }
-    let radio = MRadio { calls: 0, fail_at: kani::any(), tx_calls: 0, tx_ok: 0 };
+    let radio = MRadio { calls: 0, fail_at: kani::any(), tx_calls: 0, tx_ok: 0, always_rx: false };
     let mut dev: Device<MRadio, MTimer, NoRng, 256, 1> =
         Device::new(region::Configuration::new(region::Region::EU868), radio, MTimer, NoRng);
     let payload = [0u8; 4];
